@@ -22,6 +22,11 @@ DRIVERS = [
     (r"mint\.Mint\)\.MintTokens$", r"post@revert|pre:storage\.MintDB\.UpdateMintQuoteState@legal", "mint", MINT_FILES, "TestVerifReplay_DupBMint|TestVerifReplay_MintStorageFault", None),
     (r"mint\.Mint\)\.MintTokens$", r"boundary|post@faultrevert", "mint", MINT_FILES, "TestVerifReplay_MintStorageFault", None),
     (r"mint\.Mint\)\.MeltTokens$", r"callsite:lightning\.Client\.SendPayment", "mint", MINT_FILES, "TestVerifReplay_MeltFeeLimit", None),
+    (r"mint\.Mint\)\.MeltTokens$", r"callsite:mint\.Mint\.settleQuotesInternally@covers", "mint", MINT_FILES, "TestVerifReplay_InternalSettleOtherInvoice", None),
+    (r"mint\.Mint\)\.checkInvoicePaid$", r"callsite:storage\.MintDB\.UpdateMintQuoteState@unpaid2paid|pre:storage\.MintDB\.UpdateMintQuoteState@legal", "mint", MINT_FILES, "TestVerifReplay_LateSettledNotification", None),
+    (r"nut11\.ProofsSigAll$", r"post@anyposition|inv-", "mint", MINT_FILES, "TestVerifReplay_SigAllAfterPlainInput", None),
+    (r"nut11\.HasValidSignatures$", r"inv-pres|post@bounded", "mint", MINT_FILES, "TestVerifReplay_SameKeyCountedTwice", None),
+    (r"nut14\.AddWitnessHTLCToOutputs$", r"callsite:schnorr\.Sign@message", "mint", MINT_FILES, "TestVerifReplay_HTLCHelperOutputWitness", None),
     (r"mint\.Mint\)\.RequestMintQuote$", r"post@maxbalance", "mint", MINT_FILES, "TestVerifReplay_MintQuoteBalanceWrap", None),
 ]
 
